@@ -498,6 +498,7 @@ func (self *VM) Wait() (coreNum uint, i *value.VmInterrupt) {
 		for _, core := range cores {
 			// fmt.Printf("checking core: %d | %v\n", core.Corenum, time.Now())
 
+			vh("PrePoll", int64(core.Corenum), "")
 			select {
 			case i := <-core.SignalHandle:
 				vh("WaitRecv", int64(core.Corenum), vhKind(i))
@@ -522,6 +523,7 @@ func (self *VM) Wait() (coreNum uint, i *value.VmInterrupt) {
 						}
 
 						for _, other := range remaining {
+							vh("PreDrainRecv", int64(other.Corenum), "")
 							<-other.SignalHandle
 							vh("WaitDrainRecv", int64(other.Corenum), "")
 							self.removeCore(other.Corenum)
